@@ -142,6 +142,7 @@ var (
 	vLastFailed    bool // the most recent attempt failed
 	vCreated       int  // successful creations
 	vUnder         *vStream
+	vJunk          *vStream // stream returned together with an error by a failed creation attempt
 	vFirstReq      interface{}
 	vFirstHasGcp   bool
 	vStreamerCtx   context.Context
@@ -161,6 +162,12 @@ func vStreamer(ctx context.Context, desc *grpc.StreamDesc, cc *grpc.ClientConn, 
 	// every creation attempt succeeds or fails on its own
 	vLastFailed = vStreamerFails || verifBool("creationFails@")
 	if vLastFailed {
+		if verifBool("failedWithStream@") {
+			// a failing streamer (e.g. a chained interceptor) may hand back a stream together with the error:
+			// it is not "the underlying stream" - nothing may be sent on it, a later attempt creates a new one
+			vJunk = &vStream{}
+			return vJunk, verifErr{}
+		}
 		return nil, verifErr{}
 	}
 	vUnder = &vStream{}
@@ -170,6 +177,7 @@ func vStreamer(ctx context.Context, desc *grpc.StreamDesc, cc *grpc.ClientConn, 
 
 func vReset() {
 	vStreamerCalls, vUnder, vFirstReq, vFirstHasGcp, vStreamerCtx = 0, nil, nil, false, nil
+	vJunk = nil
 	vLastFailed, vCreated, vStreamerFails = false, 0, false
 }
 
@@ -247,6 +255,7 @@ func VerifH_stream() {
 		verifAssert(vStreamerCtx.Value(vUserKey{}) == interface{}(parent.userVal), "C12: caller's context value lost on the stream")
 	}
 	verifAssert(vCreated <= 1, "C12: more than one underlying stream was created")
+	verifAssert(vJunk == nil || vJunk.n == 0, "C12: a call was delegated to the stream a failed creation attempt returned together with its error")
 	verifObserve("creations", uint64(vStreamerCalls))
 	verifObserve("sends", uint64(sends))
 }
